@@ -160,9 +160,40 @@ def in_router_class(c):
             and c["end"][1] == l["BRY"] and l["TLX"] < c["end"][0] < l["BRX"])
 
 
+def c19_known_subclass(c):
+    """Outside the router's class the recorded finding is delimited to two exactly described situations (exact rational tests):
+    'last-rect-widens-both': the end point is not on the bottom edge of the last rectangle and that rectangle extends beyond its
+       predecessor on both sides (the path detours through its bottom-right corner);
+    'degenerate-position': the start (unless strictly inside the top edge of the first rectangle) or the end (unless strictly inside
+       the bottom edge of the last) is collinear with two corridor vertices: on a corner, on a rectangle side or its extension, on a
+       line that can be a diagonal of the triangulation.
+    Anything else that fails outside the class is reported."""
+    from fractions import Fraction as Fr
+    R = c["rects"]
+    f, l = R[0], R[-1]
+    s, e = c["start"], c["end"]
+    if len(R) >= 2 and e[1] != l["BRY"] and l["TLX"] < R[-2]["TLX"] and l["BRX"] > R[-2]["BRX"]:
+        return "last-rect-widens-both"
+    V = sorted({(Fr(x), Fr(y)) for r in R for x in (r["TLX"], r["BRX"]) for y in (r["TLY"], r["BRY"])})
+
+    def collinear(p):
+        px, py = Fr(p[0]), Fr(p[1])
+        for i, u in enumerate(V):
+            for v in V[i + 1:]:
+                if (v[0] - u[0]) * (py - u[1]) - (v[1] - u[1]) * (px - u[0]) == 0:
+                    return True
+        return False
+    s_ok = s[1] == f["TLY"] and f["TLX"] < s[0] < f["BRX"]
+    e_ok = e[1] == l["BRY"] and l["TLX"] < e[0] < l["BRX"]
+    if (not s_ok and collinear(s)) or (not e_ok and collinear(e)):
+        return "degenerate-position"
+    return None
+
+
 def c19_step(run):
     n = dict(quick=1200, thorough=20000)[run.tier]
-    for cls, k in (("inside", n), ("any", n // 6), ("stairs", n // 5)):
+    listed = {k["class"] for k in run.load_known()}
+    for cls, k in (("inside", n), ("any", n // 6), ("interior", n // 2), ("stairs", n // 5)):
         gdir = os.path.join(run.dir, "geom_" + cls)
         rc, out = sh([os.path.join(WORK, "vh"), "geom", "-prop", cls, "-seed", str(run.seed), "-n", str(k), "-out", gdir], timeout=3000)
         if rc != 0:
@@ -183,22 +214,25 @@ def c19_step(run):
         run.cov["distinct_nontrivial"] += len({json.dumps([c["rects"], c["start"], c["end"]]) for c in evaluated if len(c["rects"]) >= 2})
         if not run.cov["samples"]:
             run.cov["samples"] = evaluated[:2]
-            run.cov["rule"] = "random corridors of 1-6 stacked rectangles on an 8-grid, consecutive ones overlapping in a segment of positive length; class 'inside': start strictly inside the top edge of the first, end strictly inside the bottom edge of the last rectangle; class 'any': anywhere in the first / last rectangle; non-trivial = at least 2 rectangles"
+            run.cov["rule"] = "random corridors of 1-6 stacked rectangles on an 8-grid, consecutive ones overlapping in a segment of positive length; class 'inside': start strictly inside the top edge of the first, end strictly inside the bottom edge of the last rectangle; class 'any': anywhere in the first / last rectangle, on a 4-grid; class 'interior': strictly inside the first / last rectangle off the grid (general position), or one of them on its edge; non-trivial = at least 2 rectangles"
         run.cov.setdefault("outcomes", {})[cls] = {str(o): sum(1 for c in evaluated if c["outcome"] == o) for o in (0, 1, 2)}
-        known = 0
+        known = {}
         for i, c in enumerate(cases):
             fails = c.get("checks", {}).get("C19")
             if fails or i in bad:
-                if cls != "stairs" and not in_router_class(c):
-                    known += 1
+                sub = c19_known_subclass(c) if (cls != "stairs" and not in_router_class(c)) else None
+                if sub and sub in listed:
+                    known[sub] = known.get(sub, 0) + 1
                     continue
                 if fails:
                     run.violation("the router's answer breaks the property: " + fails[:300], {"kind": "corridor", "property": "C19", "case": c}, True)
                 else:
                     run.pending_mismatch = getattr(run, "pending_mismatch", [])
                     run.pending_mismatch.append(({"corridor": c}, ["geom:shortest"]))
-        if known:
-            run.known.append("property=C19 router-outside-class: geom.Shortest returns a wrong path or does not return when the start is not strictly inside the top edge of the first rectangle or the end not strictly inside the bottom edge of the last (%d of %d corridors of class '%s' in this run)" % (known, len(evaluated), cls))
+        what = {"last-rect-widens-both": "geom.Shortest detours through the bottom-right corner of the last rectangle when the end point is not on its bottom edge and that rectangle extends beyond its predecessor on both sides",
+                "degenerate-position": "geom.Shortest returns a wrong path or does not return when the start (unless strictly inside the top edge of the first rectangle) or the end (unless strictly inside the bottom edge of the last) is collinear with two corridor vertices"}
+        for sub, kn in sorted(known.items()):
+            run.known.append("property=C19 %s: %s (%d of %d corridors of class '%s' in this run)" % (sub, what[sub], kn, len(evaluated), cls))
 
 
 def c20_step(run):
